@@ -109,5 +109,9 @@ func TestVerifC15Manager(t *testing.T) {
 		Cancellable: func(api int) bool { return api == 0 },
 		Reset:       func() { cm.VerifC15Reset() },
 	}
-	contracts.VerifC15Drive(t, em, be, verifN(150), verifCaseRand, thorough)
+	if contracts.VerifC15Drive(t, em, be, verifN(150), verifCaseRand) {
+		// goroutines are stuck inside the locker: Manager.Close would wait for them forever
+		em.Close()
+		os.Exit(3)
+	}
 }
